@@ -16,6 +16,7 @@ Not covered: equivalence of the workbook and JSON-file channels with the diction
 from __future__ import annotations
 
 import itertools
+import json
 import os
 import shutil
 import tempfile
@@ -90,6 +91,54 @@ def ob_wrapper(h):
             h.check("target_without_problem_refused", True)
     finally:
         pp.pinch_analysis_service = old
+
+
+def ob_history(h):
+    """Ghost state `current` = the problem most recently loaded.  target() answers for `current`; the service is called at most once per
+    load; a result handed out earlier is never altered."""
+    tmp = Path(tempfile.mkdtemp(prefix="pvc_c16h_"))
+    calls = []
+
+    def tag(data):
+        return data["marker"] if isinstance(data, dict) else ("model", id(data))
+
+    def fake_service(data, project_name=None, is_return_full_results=False):
+        calls.append(tag(data))
+        return ("result for", tag(data)), ("zone for", tag(data))
+    old = pp.pinch_analysis_service
+    pp.pinch_analysis_service = fake_service
+    try:
+        sources = {}
+        for k in "AB":
+            f = tmp / f"{k}.json"
+            f.write_text(json.dumps({"streams": [], "utilities": [], "marker": k}))
+            sources[k] = f
+        models = {k: pp.TargetInput.model_construct(streams=[], utilities=[]) for k in "AB"}
+        p = pp.PinchProblem(run=False)
+        current, calls_at_load = None, 0
+        for i in range(4):
+            op = h.choice(f"op{i}", ["load A", "load B", "load model A", "load model B", "target", "stop"])
+            if op == "stop":
+                break
+            if op.startswith("load model"):
+                p.load(models[op[-1]])
+                current, calls_at_load = ("model", id(models[op[-1]])), len(calls)
+            elif op.startswith("load"):
+                p.load(sources[op[-1]])
+                current, calls_at_load = op[-1], len(calls)
+            elif current is None:
+                try:
+                    p.target()
+                    h.check("target_without_problem_refused", False)
+                except RuntimeError:
+                    h.check("target_without_problem_refused", True)
+            else:
+                out = p.target()
+                h.check("target_answers_for_the_problem_loaded_last", out == ("result for", current) and p.results == out and p.master_zone == ("zone for", current))
+                h.check("service_called_at_most_once_per_load", len(calls) - calls_at_load <= 1 and (len(calls) == calls_at_load or calls[-1] == current))
+    finally:
+        pp.pinch_analysis_service = old
+        shutil.rmtree(tmp, ignore_errors=True)
 
 
 def ob_dispatch(h):
@@ -209,6 +258,9 @@ def obligations():
         Obligation("C16.get_value", ob_get_value, functions=[misc.get_value], doc="UNWRAP, path-complete over the argument kind"),
         Obligation("C16.wrapper.b", ob_wrapper, kind="bounded", bound="three ways of loading x 1..3 target() calls", functions=[pp.PinchProblem.target, pp.PinchProblem.from_json, pp.PinchProblem.load],
                    stubs=("pinch_analysis_service (recorder)",)),
+        Obligation("C16.history.b", ob_history, kind="smallscope", bound="every sequence of up to 4 calls from {load file A/B, load model A/B, target} on one wrapper (exhaustive)",
+                   functions=[pp.PinchProblem.target, pp.PinchProblem.load], stubs=("pinch_analysis_service (recorder)",), max_paths=100000,
+                   doc="HISTORY: target() answers for the problem loaded last; one service call per load"),
         Obligation("C16.dispatch.b", ob_dispatch, kind="bounded", bound="one source of each kind (files created in a temporary directory)", functions=[pp.PinchProblem.load],
                    stubs=("get_problem_from_excel", "get_problem_from_csv")),
         Obligation("C16.sheets.b", _ob_sheets(3), kind="bounded", bound=f"every history of 3 requests over a pool of {len(NAME_POOL)} adversarial names (exhaustive)",
